@@ -542,8 +542,27 @@ class Executor(object):
     def stmt_Break(self, s, st):
         raise Undecided('break is outside the verified subset (line %d)' % s.lineno)
 
+    @staticmethod
+    def _narrow_target(test):
+        """(name, positive) if the test is `name is not None` (positive) or `name is None`"""
+        if isinstance(test, ast.Compare) and len(test.ops) == 1 and isinstance(test.left, ast.Name) and \
+                isinstance(test.comparators[0], ast.Constant) and test.comparators[0].value is None:
+            if isinstance(test.ops[0], ast.IsNot):
+                return test.left.id, True
+            if isinstance(test.ops[0], ast.Is):
+                return test.left.id, False
+        return None, None
+
+    @staticmethod
+    def _narrow(st, name, present):
+        """in the branch where an Optional local is known to hold a value it is that value (None in the other)"""
+        v = st.env.get(name)
+        if v is not None and not isinstance(v, Iter) and isinstance(getattr(v, 'ty', None), OptT):
+            st.env[name] = V(v.ty.t, O_val(v.ty, v.t)) if present else vnone()
+
     def stmt_If(self, s, st):
         outs = []
+        nname, npos = self._narrow_target(s.test)
         for (st1, cv) in self.eval_forking(st, s.test):
             if isinstance(cv, tuple):
                 outs.append(cv)
@@ -560,6 +579,9 @@ class Executor(object):
             st_t.pc.append(c)
             st_f = st1
             st_f.pc.append(z3.Not(c))
+            if nname is not None:
+                self._narrow(st_t, nname, npos)
+                self._narrow(st_f, nname, not npos)
             if self.feasible(st_t):
                 outs += self.exec_block(s.body, st_t)
             if self.feasible(st_f):
